@@ -151,6 +151,8 @@ def run(ctx):
     _lskel.rule_L_SKELETON(ctx, which=('lexical', 'fold', 'term'), floor=10)
     import maps as _mb
     _mb.rule_M_BINFILL(ctx)
+    import tables as _t3
+    _t3.rule_T_SPACE(ctx, _t3.Tables(ctx), models=("enum", "lex"))
     ctx.undecided = ["equality of the two pipelines' values on every string (nesting, leniency on malformed input)"]
     ctx.assumptions = ["rustc HIR/name resolution is correct", "nar_dev_utils 0.42.3 dictionary semantics as read from its source"]
     ctx.trusted = ["rustc nightly front end (HIR, typeck)", "mirfacts driver", "python rule layer"]
